@@ -1,14 +1,257 @@
-import Ruint.Model.Bytes
-import Ruint.Lemmas.Basic
+import Ruint.Lemmas.Bytes
 
-/-! # C08 — byte encodings (property theorems; under construction) -/
+/-!
+# C08 — byte encodings are positional, round-trip, and range-check without panicking
+
+Property theorems only. Every theorem quantifies over **all** widths `bits` (0, non-multiples of 8 and 64
+included), all canonical values, all byte strings. The model functions (`Ruint.Bytes.*`, file
+`Model/Bytes.lean`) are the ones the correspondence driver executes against the real `Uint` methods;
+the decoders are modelled with both code paths (whole-limb fast path / byte accumulation loop).
+
+`ofLE bs = Σ bs[i]·256^i`, `ofBE bs = ofLE bs.reverse`; `BYTES = nbytes bits = ⌈bits/8⌉`.
+-/
 namespace Ruint.C08
 open Ruint Ruint.Bytes Ruint.Canon
 
-/-- the decoders reject anything longer than `BYTES` (first branch), for every width and input. -/
-theorem try_from_be_slice_too_long (bits : ℕ) (bs : List ℕ) (h : nbytes bits < bs.length) :
-    tryFromBeSlice bits bs = .none := by
-  unfold tryFromBeSlice
-  simp [h]
+/-- positional value of a little-endian byte string -/
+abbrev ofLE (bs : List ℕ) : ℕ := wordOfLE bs
+/-- positional value of a big-endian byte string -/
+abbrev ofBE (bs : List ℕ) : ℕ := wordOfBE bs
+
+theorem ofBE_eq (bs : List ℕ) : ofBE bs = ofLE bs.reverse := wordOfBE_eq bs
+
+/-! ## encoders -/
+
+/-- `as_le_slice` / `as_le_bytes` / `to_le_bytes_vec`: length `BYTES`, byte `i` is `val / 256^i % 256`,
+    every element is a byte. -/
+theorem as_le_slice_spec (bits : ℕ) (a : List ℕ) (ha : Canon bits a) :
+    (asLeSlice bits a).length = nbytes bits
+    ∧ (∀ i, i < nbytes bits → (asLeSlice bits a).getD i 0 = val a / 256 ^ i % 256)
+    ∧ AllByte (asLeSlice bits a) ∧ ofLE (asLeSlice bits a) = val a := by
+  rw [asLeSlice_eq bits a ha]
+  refine ⟨by simp, fun i hi => bytesLE_getD _ _ i hi, bytesLE_allByte _ _, ?_⟩
+  rw [ofLE, wordOfLE_bytesLE]
+  exact Nat.mod_eq_of_lt (lt_of_lt_of_le ha.val_lt (two_pow_le_256 bits))
+
+theorem as_le_bytes_spec (bits : ℕ) (a : List ℕ) :
+    asLeBytes bits a = asLeSlice bits a ∧ toLeBytesVec bits a = asLeSlice bits a := ⟨rfl, rfl⟩
+
+/-- `to_le_bytes::<N>()`: panics unless `N = BYTES`; otherwise the `BYTES` positional digits. -/
+theorem to_le_bytes_spec (bits n : ℕ) (a : List ℕ) (ha : Canon bits a) :
+    (n ≠ nbytes bits → toLeBytes bits n a = none)
+    ∧ (n = nbytes bits → ∃ bs, toLeBytes bits n a = some bs ∧ bs.length = nbytes bits
+        ∧ (∀ i, i < nbytes bits → bs.getD i 0 = val a / 256 ^ i % 256) ∧ ofLE bs = val a) := by
+  unfold toLeBytes
+  obtain ⟨h1, h2, _, h4⟩ := as_le_slice_spec bits a ha
+  exact ⟨fun h => by simp [h], fun h => ⟨_, by simp [h], h1, h2, h4⟩⟩
+
+/-- `to_be_bytes::<N>()` is the reversal: byte `i` is digit `BYTES − 1 − i`. -/
+theorem to_be_bytes_spec (bits n : ℕ) (a : List ℕ) (ha : Canon bits a) :
+    (n ≠ nbytes bits → toBeBytes bits n a = none)
+    ∧ (n = nbytes bits → ∃ bs, toBeBytes bits n a = some bs ∧ bs = (asLeSlice bits a).reverse
+        ∧ bs.length = nbytes bits
+        ∧ (∀ i, i < nbytes bits → bs.getD i 0 = val a / 256 ^ (nbytes bits - 1 - i) % 256)
+        ∧ ofBE bs = val a) := by
+  unfold toBeBytes toLeBytes
+  obtain ⟨h1, h2, _, h4⟩ := as_le_slice_spec bits a ha
+  refine ⟨fun h => by simp [h], fun h => ⟨_, by simp [h], rfl, by simp [h1], ?_, ?_⟩⟩
+  · intro i hi
+    simp only [List.getD]
+    rw [List.getElem?_reverse (by omega), h1]
+    exact h2 _ (by omega)
+  · rw [ofBE_eq, List.reverse_reverse]; exact h4
+
+theorem to_be_bytes_vec_spec (bits : ℕ) (a : List ℕ) (ha : Canon bits a) :
+    toBeBytesVec bits a = (asLeSlice bits a).reverse ∧ ofBE (toBeBytesVec bits a) = val a := by
+  refine ⟨rfl, ?_⟩
+  unfold toBeBytesVec toLeBytesVec asLeBytes
+  rw [ofBE_eq, List.reverse_reverse]; exact (as_le_slice_spec bits a ha).2.2.2
+
+/-- the trimmed little-endian forms are exactly the minimal base-256 digit string (`Nat.digits`):
+    no trailing zero byte, empty for zero. -/
+theorem le_bytes_trimmed_spec (bits : ℕ) (a : List ℕ) (ha : Canon bits a) :
+    asLeBytesTrimmed bits a = Nat.digits 256 (val a)
+    ∧ toLeBytesTrimmedVec bits a = Nat.digits 256 (val a) := by
+  have : asLeBytesTrimmed bits a = Nat.digits 256 (val a) := by
+    unfold asLeBytesTrimmed asLeBytes
+    rw [trimEnd_eq_digits _ (as_le_slice_spec bits a ha).2.2.1]
+    congr 1; exact (as_le_slice_spec bits a ha).2.2.2
+  exact ⟨this, this⟩
+
+/-- the trimmed big-endian form is the minimal digit string, most significant first. -/
+theorem be_bytes_trimmed_spec (bits : ℕ) (a : List ℕ) (ha : Canon bits a) :
+    toBeBytesTrimmedVec bits a = (Nat.digits 256 (val a)).reverse := by
+  unfold toBeBytesTrimmedVec
+  rw [(le_bytes_trimmed_spec bits a ha).2]
+
+/-- `copy_le_bytes_to`: panics iff the buffer is shorter than `BYTES`; otherwise writes the digits to
+    the front, leaves the rest, returns `BYTES`. -/
+theorem copy_le_bytes_to_spec (bits : ℕ) (a buf : List ℕ) :
+    (buf.length < nbytes bits → copyLeBytesTo bits a buf = none)
+    ∧ (nbytes bits ≤ buf.length →
+        copyLeBytesTo bits a buf = some (nbytes bits, asLeSlice bits a ++ buf.drop (nbytes bits))) := by
+  unfold copyLeBytesTo
+  exact ⟨fun h => by simp [h], fun h => by simp [Nat.not_lt.mpr h]⟩
+
+/-- `checked_copy_le_bytes_to`: `None` and the buffer **untouched** when it is too short. -/
+theorem checked_copy_le_bytes_to_spec (bits : ℕ) (a buf : List ℕ) :
+    (buf.length < nbytes bits → checkedCopyLeBytesTo bits a buf = some (none, buf))
+    ∧ (nbytes bits ≤ buf.length → checkedCopyLeBytesTo bits a buf
+        = some (some (nbytes bits), asLeSlice bits a ++ buf.drop (nbytes bits))) := by
+  unfold checkedCopyLeBytesTo copyLeBytesTo
+  exact ⟨fun h => by simp [h], fun h => by simp [Nat.not_lt.mpr h]⟩
+
+/-- `copy_be_bytes_to` (the `rchunks_mut(8)` loop): writes the big-endian digits. -/
+theorem copy_be_bytes_to_spec (bits : ℕ) (a buf : List ℕ) (ha : Canon bits a) :
+    (buf.length < nbytes bits → copyBeBytesTo bits a buf = none)
+    ∧ (nbytes bits ≤ buf.length → copyBeBytesTo bits a buf
+        = some (nbytes bits, (asLeSlice bits a).reverse ++ buf.drop (nbytes bits))) := by
+  unfold copyBeBytesTo
+  refine ⟨fun h => by simp [h], fun h => ?_⟩
+  have hl : (buf.take (nbytes bits)).length = nbytes bits := by simp; omega
+  rw [if_neg (Nat.not_lt.mpr h), copyBeRegion_eq a _ ha.2.1 (by rw [hl, ha.1]; exact nbytes_le bits), hl,
+    asLeSlice_eq bits a ha]
+
+theorem checked_copy_be_bytes_to_spec (bits : ℕ) (a buf : List ℕ) (ha : Canon bits a) :
+    (buf.length < nbytes bits → checkedCopyBeBytesTo bits a buf = some (none, buf))
+    ∧ (nbytes bits ≤ buf.length → checkedCopyBeBytesTo bits a buf
+        = some (some (nbytes bits), (asLeSlice bits a).reverse ++ buf.drop (nbytes bits))) := by
+  unfold checkedCopyBeBytesTo
+  refine ⟨fun h => by simp [h], fun h => ?_⟩
+  rw [if_neg (Nat.not_lt.mpr h), ((copy_be_bytes_to_spec bits a buf ha).2 h)]
+  rfl
+
+/-! ## decoders -/
+
+/-- `try_from_le_slice` on ANY byte string: `Some(v)` exactly when the slice is at most `BYTES` long and
+    denotes a number below `2^bits` (then `v` is canonical with that value); `None` otherwise.
+    Both code paths. -/
+theorem try_from_le_slice_spec (bits : ℕ) (bs : List ℕ) (h : AllByte bs) :
+    (bs.length ≤ nbytes bits ∧ ofLE bs < 2 ^ bits →
+      ∃ l, tryFromLeSlice bits bs = .ok l ∧ Canon bits l ∧ val l = ofLE bs)
+    ∧ (¬ (bs.length ≤ nbytes bits ∧ ofLE bs < 2 ^ bits) → tryFromLeSlice bits bs = .none) := by
+  by_cases hlen : bs.length ≤ nbytes bits
+  · rw [tryFromLeSlice_eq bits bs h hlen]
+    obtain ⟨c1, c2⟩ := checkTop_toLimbs bits (ofLE bs) (wordOfLE_lt_W bits bs h hlen)
+    constructor
+    · rintro ⟨_, hv⟩
+      exact ⟨_, c1 hv, canon_toLimbs bits _ hv, val_toLimbs_of_lt bits _ hv⟩
+    · intro hn
+      exact c2 (by by_contra hc; exact hn ⟨hlen, by omega⟩)
+  · constructor
+    · rintro ⟨hl, _⟩; omega
+    · intro _; unfold tryFromLeSlice; simp [Nat.lt_of_not_le hlen]
+
+/-- `try_from_be_slice` on ANY byte string (both code paths). -/
+theorem try_from_be_slice_spec (bits : ℕ) (bs : List ℕ) (h : AllByte bs) :
+    (bs.length ≤ nbytes bits ∧ ofBE bs < 2 ^ bits →
+      ∃ l, tryFromBeSlice bits bs = .ok l ∧ Canon bits l ∧ val l = ofBE bs)
+    ∧ (¬ (bs.length ≤ nbytes bits ∧ ofBE bs < 2 ^ bits) → tryFromBeSlice bits bs = .none) := by
+  rw [tryFromBeSlice_eq_le bits bs h, ofBE_eq]
+  have := try_from_le_slice_spec bits bs.reverse h.reverse
+  simpa using this
+
+/-- the slice decoders never panic, whatever the input. -/
+theorem try_from_slice_never_panics (bits : ℕ) (bs : List ℕ) (h : AllByte bs) :
+    tryFromLeSlice bits bs ≠ .panic ∧ tryFromBeSlice bits bs ≠ .panic := by
+  constructor
+  · by_cases hc : bs.length ≤ nbytes bits ∧ ofLE bs < 2 ^ bits
+    · obtain ⟨l, e, _⟩ := (try_from_le_slice_spec bits bs h).1 hc; rw [e]; simp
+    · rw [(try_from_le_slice_spec bits bs h).2 hc]; simp
+  · by_cases hc : bs.length ≤ nbytes bits ∧ ofBE bs < 2 ^ bits
+    · obtain ⟨l, e, _⟩ := (try_from_be_slice_spec bits bs h).1 hc; rw [e]; simp
+    · rw [(try_from_be_slice_spec bits bs h).2 hc]; simp
+
+/-- `from_le_slice` / `from_be_slice`: the value when it fits, a panic otherwise. -/
+theorem from_slice_spec (bits : ℕ) (bs : List ℕ) (h : AllByte bs) :
+    (bs.length ≤ nbytes bits ∧ ofLE bs < 2 ^ bits →
+      ∃ l, fromLeSlice bits bs = .ok l ∧ Canon bits l ∧ val l = ofLE bs)
+    ∧ (¬ (bs.length ≤ nbytes bits ∧ ofLE bs < 2 ^ bits) → fromLeSlice bits bs = .panic)
+    ∧ (bs.length ≤ nbytes bits ∧ ofBE bs < 2 ^ bits →
+      ∃ l, fromBeSlice bits bs = .ok l ∧ Canon bits l ∧ val l = ofBE bs)
+    ∧ (¬ (bs.length ≤ nbytes bits ∧ ofBE bs < 2 ^ bits) → fromBeSlice bits bs = .panic) := by
+  unfold fromLeSlice fromBeSlice
+  refine ⟨fun hc => ?_, fun hc => ?_, fun hc => ?_, fun hc => ?_⟩
+  · obtain ⟨l, e, r⟩ := (try_from_le_slice_spec bits bs h).1 hc; exact ⟨l, by rw [e], r⟩
+  · rw [(try_from_le_slice_spec bits bs h).2 hc]
+  · obtain ⟨l, e, r⟩ := (try_from_be_slice_spec bits bs h).1 hc; exact ⟨l, by rw [e], r⟩
+  · rw [(try_from_be_slice_spec bits bs h).2 hc]
+
+/-- `from_le_bytes::<N>` / `from_be_bytes::<N>`: panic unless `N = BYTES`, then as the slice forms. -/
+theorem from_bytes_spec (bits : ℕ) (bs : List ℕ) :
+    (bs.length ≠ nbytes bits → fromLeBytes bits bs = .panic ∧ fromBeBytes bits bs = .panic)
+    ∧ (bs.length = nbytes bits →
+        fromLeBytes bits bs = fromLeSlice bits bs ∧ fromBeBytes bits bs = fromBeSlice bits bs) := by
+  unfold fromLeBytes fromBeBytes
+  exact ⟨fun h => by simp [h], fun h => by simp [h]⟩
+
+/-! ## round trips -/
+
+/-- decoding any of the little-endian encodings (fixed, vec, slice, trimmed) returns the value. -/
+theorem le_round_trip (bits : ℕ) (a : List ℕ) (ha : Canon bits a) :
+    tryFromLeSlice bits (asLeSlice bits a) = .ok a
+    ∧ tryFromLeSlice bits (toLeBytesTrimmedVec bits a) = .ok a
+    ∧ fromLeSlice bits (toLeBytesVec bits a) = .ok a
+    ∧ (∀ bs, toLeBytes bits (nbytes bits) a = some bs → fromLeBytes bits bs = .ok a) := by
+  obtain ⟨h1, _, h3, h4⟩ := as_le_slice_spec bits a ha
+  have key : ∀ bs, AllByte bs → bs.length ≤ nbytes bits → ofLE bs = val a →
+      tryFromLeSlice bits bs = .ok a := by
+    intro bs hb hl hv
+    obtain ⟨l, e, c, v⟩ := (try_from_le_slice_spec bits bs hb).1 ⟨hl, by rw [hv]; exact ha.val_lt⟩
+    rw [e, canon_ext bits l a c ha (by rw [v, hv])]
+  have k1 := key _ h3 (by omega) h4
+  have htrim : tryFromLeSlice bits (toLeBytesTrimmedVec bits a) = .ok a := by
+    unfold toLeBytesTrimmedVec asLeBytesTrimmed asLeBytes
+    apply key _ (trimEnd_allByte _ h3) (le_trans (trimEnd_length_le _) (by omega))
+    rw [ofLE, wordOfLE_trimEnd]; exact h4
+  refine ⟨k1, htrim, ?_, ?_⟩
+  · unfold fromLeSlice toLeBytesVec asLeBytes; rw [k1]
+  · intro bs hbs
+    unfold toLeBytes at hbs
+    simp only [if_true] at hbs
+    have : bs = asLeSlice bits a := by simpa using hbs.symm
+    subst this
+    unfold fromLeBytes fromLeSlice
+    rw [if_pos h1, k1]
+
+/-- decoding any of the big-endian encodings returns the value. -/
+theorem be_round_trip (bits : ℕ) (a : List ℕ) (ha : Canon bits a) :
+    tryFromBeSlice bits (toBeBytesVec bits a) = .ok a
+    ∧ tryFromBeSlice bits (toBeBytesTrimmedVec bits a) = .ok a
+    ∧ fromBeSlice bits (toBeBytesVec bits a) = .ok a
+    ∧ (∀ bs, toBeBytes bits (nbytes bits) a = some bs → fromBeBytes bits bs = .ok a) := by
+  obtain ⟨l1, l2, _, _⟩ := le_round_trip bits a ha
+  obtain ⟨h1, _, h3, _⟩ := as_le_slice_spec bits a ha
+  have k1 : tryFromBeSlice bits (toBeBytesVec bits a) = .ok a := by
+    unfold toBeBytesVec toLeBytesVec asLeBytes
+    rw [tryFromBeSlice_eq_le _ _ h3.reverse, List.reverse_reverse]; exact l1
+  have k2 : tryFromBeSlice bits (toBeBytesTrimmedVec bits a) = .ok a := by
+    unfold toBeBytesTrimmedVec
+    have hb : AllByte (toLeBytesTrimmedVec bits a) := trimEnd_allByte _ h3
+    rw [tryFromBeSlice_eq_le _ _ hb.reverse, List.reverse_reverse]; exact l2
+  refine ⟨k1, k2, ?_, ?_⟩
+  · unfold fromBeSlice; rw [k1]
+  · intro bs hbs
+    unfold toBeBytes toLeBytes at hbs
+    simp only [if_true, Option.map_some] at hbs
+    have : bs = (asLeSlice bits a).reverse := by simpa using hbs.symm
+    subst this
+    unfold fromBeBytes fromBeSlice
+    have e : tryFromBeSlice bits (asLeSlice bits a).reverse = .ok a := k1
+    rw [if_pos (by simp [h1]), e]
+
+/-! ## the defect of the pinned tree, as a theorem about the pre-fix model -/
+
+/-- before the fix the whole-limb fast path constructed the value with the asserting `from_limbs`:
+    a full-length 60-bit input with excess high bits panicked instead of returning `None`. -/
+theorem old_fast_path_panics : tryFromBeSliceOld 60 (List.replicate 8 255) = .panic := by
+  decide +kernel
+
+/-! Non-vacuity: concrete instances evaluated by the kernel (both paths, accept and reject). -/
+example : tryFromBeSlice 60 (List.replicate 8 255) = .none := by decide +kernel
+example : tryFromBeSlice 60 (15 :: List.replicate 7 255) = .ok [2 ^ 60 - 1] := by decide +kernel
+example : tryFromLeSlice 12 [0xff, 0x0f] = .ok [0xfff] ∧ tryFromLeSlice 12 [0, 0x10] = .none := by
+  decide +kernel
+example : toBeBytesTrimmedVec 65 [0x100, 0] = [1, 0] := by decide +kernel
 
 end Ruint.C08
